@@ -1,6 +1,6 @@
 """Job runner: generates obligations from the real code (symbolic exploration of sidecar contracts),
 discharges them, replays refutations natively, applies the verdict policy, writes evidence."""
-import os, sys, json, time, hashlib, inspect, traceback, signal, re, importlib, math
+import os, sys, json, time, hashlib, inspect, traceback, signal, re, importlib, math, subprocess
 import multiprocessing as mp
 import numpy as np
 import z3
@@ -199,7 +199,7 @@ def match_known(known, prop, jobid, oname):
 
 
 def main(argv=None):
-    import argparse
+    import argparse, subprocess
     ap = argparse.ArgumentParser()
     ap.add_argument('prop')
     ap.add_argument('--tier', default=os.environ.get('VERIF_TIER', 'quick'))
@@ -226,6 +226,14 @@ def main(argv=None):
         return 3
     if a.replay:
         return replay(prop, a.replay, tier, seed)
+    # engine self-test (conformance of the dependency contracts and value classes) in a child process: a mismatch means nothing the
+    # engine reports can be believed -> machinery failure, not a verdict on the repository
+    st = subprocess.run([sys.executable, '-W', 'ignore', '-m', 'pvc.selftest'], cwd=VERIF, capture_output=True, text=True)
+    a.selftest = (st.stdout.strip().splitlines() or ['selftest: no output'])[-1]
+    if st.returncode != 0:
+        for l in st.stdout.splitlines()[-6:]: print(l)
+        print(f"ENGINE-ERROR property={prop}: engine self-test failed ({a.selftest})")
+        return 3
     if a.jobs: joblist = [j for j in joblist if re.search(a.jobs, j.id)]
     ids = [j.id for j in joblist]
     assert len(ids) == len(set(ids)), "duplicate job ids: " + str([i for i in ids if ids.count(i) > 1][:3])
@@ -401,6 +409,7 @@ def report(prop, tier, seed, joblist, results, wall, a, mod):
         checker_cmd=f"./check {prop} --tier {tier}",
         trusted_base=sorted(shimset) + ["CPython 3.12 as interpreter of the non-symbolic part", "pvc value classes (SReal/SBool/AVec) and term differentiator", "z3 5.1 / cvc5 1.0.3", "spec functions in /verif/contracts"],
         per_level=per_level, per_backend=per_backend, solver_time_s=round(solver_time, 3),
+        engine_selftest=getattr(a, 'selftest', ''),
         jobs=len(results), paths_explored=paths_total,
         functions_under_contract=functions,
         undecided=[f"{j}:{n}: {w}"[:300] for j, n, w in undecided][:60],
